@@ -19,6 +19,9 @@ def run(check, tier):
             c["match"] = S.add_component(c["match"], r.choice(['#n == 2 -> fail()', 'above(#n, 4) -> fail()', 'fail_and_stop(below(#n, 1))']))
         if r.random() < 0.5:
             c["match"] = S.add_component(c["match"], r.choice(['push("vs", valid())', 'push("fs", failed())']))
+        if r.random() < 0.3:
+            # the csvpath's own validation-mode (with and without fail): a well-typed program must not notice it
+            c["vmode"] = r.choice(["print, no-raise, fail", "no-raise, fail", "fail", "no-fail", "no-raise, no-stop"])
         cases.append(c)
     interp_common.run_interp_cases(check, cases, "C04 profile", owns=["validity"])
     # aggregation over a named-paths run, and error policies with and without fail
